@@ -102,6 +102,14 @@ pub fn units_of(b: &Branch) -> Vec<Unit> {
     out
 }
 
+/// a text unit or a primitive value (not a nested type, a mark, or content that has been collected)
+fn is_value(u: &Unit) -> bool {
+    match u.val.as_deref() {
+        None => false,
+        Some(v) => !v.starts_with("N(") && !matches!(v, "deleted" | "gc" | "format" | "embed" | "type" | "doc" | "binary" | "json" | "string" | "any"),
+    }
+}
+
 fn r_dbg(r: (u64, u32)) -> (u64, u32) {
     r
 }
@@ -224,7 +232,7 @@ fn check_stickies(w: &mut World, n: usize) -> VResult {
                         Some(q) => {
                             // the copy of an element is that element: same value (the hook shows
                             // the redone link per item; inside a split item it must have moved on)
-                            if units[p].val.is_some() && units[q].val.is_some() && !units[p].val.as_deref().unwrap_or("").starts_with("N(") && units[p].val != units[q].val && units[p].ch.is_some() == units[q].ch.is_some() && at.1 == units[p].clock {
+                            if units[p].val.is_some() && units[q].val.is_some() && is_value(&units[p]) && is_value(&units[q]) && units[p].val != units[q].val && units[p].ch.is_some() == units[q].ch.is_some() && at.1 == units[p].clock {
                                 return Err(viol(
                                     "sticky.redone-link",
                                     format!(
